@@ -46,7 +46,16 @@ def build_pool(lang, specs, col=None):
             if p is not None:
                 pool.append(('fixture:%s' % sp['fixture'], p))
             continue
-        case = pg.gen_case(lang, 'seed', sp['seed'], sp.get('switches', ()), sp.get('limits'))
+        utils = boot._state['utils']
+        full_words = utils.random.INITIAL_WORDS
+        if sp.get('small_words'):
+            # a thinned identifier pool (every program is one the tool can generate - just with names that are
+            # likely to recur in the next program, in another role)
+            utils.random.INITIAL_WORDS = set(sorted(full_words)[::max(1, len(full_words) // 450)])
+        try:
+            case = pg.gen_case(lang, 'seed', sp['seed'], sp.get('switches', ()), sp.get('limits'))
+        finally:
+            utils.random.INITIAL_WORDS = full_words
         if case.program is None:
             continue
         g = case.program
@@ -157,7 +166,8 @@ class Session:
                               {'program': self.pool[i][0], 'translator': lang, 'how': how,
                                'first_difference': _first_diff(self.golden[gk], text)}))
         for i in sorted(touched):
-            d = sd.pdiff(self.twins[i], self.pool[i][1], limit=4)
+            d = sd.pdiff(self.twins[i], self.pool[i][1], limit=4,
+                         skip=lambda o, a: type(o).__name__ == 'Context' and a == '_namespaces')  # deep-copy artifact, see C13/C16
             if d:
                 viols.append(('C11/program-modified/%s' % _attr_of(d[0][0]),
                               {'program': self.pool[i][0], 'diff': [list(map(str, x)) for x in d]}))
@@ -194,12 +204,20 @@ def _attr_of(path):
 def pool_specs(col, quick):
     import random
     rnd = random.Random(col.shard_seed('pool'))
-    n = 4 if quick else 12
+    n = 3 if quick else 8
     specs = []
     for j in range(n):
         limits = {'max_depth': rnd.choice([3, 4, 5, 6]), 'min_top_level': 2, 'max_top_level': rnd.choice([4, 6, 8])}
         sw = [s for s in boot.SWITCHES if rnd.random() < 0.2]
-        specs.append({'seed': rnd.randrange(2 ** 31), 'switches': sw, 'limits': limits})
+        seed = rnd.randrange(2 ** 31)
+        specs.append({'seed': seed, 'switches': sw, 'limits': limits})
+        # a sibling generated from the same seed under other limits: it shares many identifiers with the first
+        # program, but in other roles (top-level vs local vs field) - state keyed by *names* that survives from one
+        # translation to the next only shows up on such pairs
+        lim2 = dict(limits, max_depth=max(2, limits['max_depth'] - 1), max_top_level=limits['max_top_level'] + 2,
+                    max_var_decls=rnd.choice([1, 2, 4]))
+        specs.append({'seed': seed + 1, 'switches': sw, 'limits': lim2, 'small_words': True})
+        specs[-2]['small_words'] = True
     for f in ('program1', 'program2', 'program3', 'program4', 'program5', 'program6'):
         specs.append({'fixture': f})
     return specs
